@@ -31,14 +31,21 @@ async def run_config(ctx, tree, W, kind, seqs, rnd, results):
         if q.method == 'POST':
             await oc.send(peers.response_head(200, 'OK', [('Content-Length', '2'), ('Cache-Control', 'no-store'), ('X-Verif-Origin', '1')]) + b'ok')
             return False
+        inm, grow = q.head.get('If-None-Match'), q.head.get('X-Verif-Reval')
+        if inm and grow is not None and inm == kr.get('etag'):
+            kr['n304'] = kr.get('n304', 0) + 1
+            await oc.send(peers.response_head(304, 'Not Modified', [('ETag', kr['etag']), ('Cache-Control', 'max-age=3600'), ('Date', peers.http_date()),
+                                                                      ('X-Verif-Pad', 'p' * int(grow)), ('X-Verif-Origin', '1')]))
+            return False
         _ver[0] += 1
         v = _ver[0]
+        kr['etag'] = '"s%d"' % v
         kr['ev'].append({'e': 'OResp', 'v': v, 'status': 200, 'len': kr['size']})
         body = peers.body_bytes(v, kr['size'])
         fr = kr['framing']
         head = peers.response_head(200, 'OK', ([('Content-Length', str(kr['size']))] if fr == 'length' else [('Transfer-Encoding', 'chunked')] if fr == 'chunked' else [('Connection', 'close')]) + [
                                                ('Cache-Control', 'max-age=3600'), ('Date', peers.http_date()),
-                                               ('X-Verif-Version', str(v)), ('X-Verif-Canary', str(v)), ('X-Verif-Origin', '1')])
+                                               ('X-Verif-Version', str(v)), ('X-Verif-Canary', str(v)), ('X-Verif-Origin', '1'), ('ETag', kr['etag'])])
         wire = peers.chunk_encode(body, [max(1, kr['size'] // 5)]) if fr == 'chunked' else body
         if q.head.get('X-Verif-SlowAbort') == '1' and kr['size'] > 4:
             # two fifths, a pause in which a reader on another worker can attach, a bit more, then the connection drops
@@ -102,6 +109,9 @@ async def run_config(ctx, tree, W, kind, seqs, rnd, results):
                 await asyncio.sleep(0.04)
                 await get(kr, other)
                 await t1
+            elif op == 'reval':
+                await get(kr, w, [('Cache-Control', 'max-age=0'), ('X-Verif-Reval', str(random.Random(kr['rid'] * 7 + len(kr['key'])).choice([0, 300, 4500, 20000])))])
+                await get(kr, other)
             elif op == 'reload':
                 await get(kr, w, [('Cache-Control', 'no-cache')])
             elif op == 'pair':
@@ -159,10 +169,11 @@ def run(ctx):
     ctx.cov['cache_hits_observed'] = len(hits)
     ctx.cov['cross_worker_hits'] = sum(1 for k, W, kr in results for j, e in enumerate(kr['ev']) if e['e'] == 'CResp' and ';hit' in e.get('cs', '')
                                        and any(p['e'] == 'CResp' and p['hv'] == e['hv'] and p['w'] != e['w'] and ';hit' not in p.get('cs', '') for p in kr['ev'][:j]))
+    ctx.cov['revalidations_answered_304'] = sum(kr.get('n304', 0) for _, _, kr in results)
     ctx.cov['invalidations'] = sum(1 for _, _, kr in results for e in kr['ev'] if e['e'] == 'Inval')
     for k, W, kr in results[:2]:
         ctx.sample({'store': k, 'workers': W, 'ops': kr['ops'], 'size': kr['size'], 'events': kr['ev'][:8]})
-    ctx.cov['rule'] = ('operation sequences = all words of length 4 over {get, getslow(+reader on another worker), slowabort(the same, the origin drops the connection mid-body), reload, post(invalidate), pair} x worker explored by TLC on SmpScen.tla; '
+    ctx.cov['rule'] = ('operation sequences = all words of length 4 over {get, getslow(+reader on another worker), slowabort(the same, the origin drops the connection mid-body), reload, reval(304 with a larger header block, then a get through the other worker), post(invalidate), pair} x worker explored by TLC on SmpScen.tla; '
                        'sampled sequences realised on their own URLs (8 in flight) against SMP squid with 2 (thorough: 3) workers, shared memory cache and rock, origin framing Content-Length / chunked / close-delimited, sizes across shared-page and '
                        'slot boundaries; one history per URL validated by TLC against SmpCache.tla.')
     ctx.assumptions += ['per-worker listening ports pin clients to workers', 'a 20 ms grace after an invalidating response before the next request (cross-worker purge notification is asynchronous)']
